@@ -138,13 +138,31 @@ def classify(text, root, r, u, r2, prefix=''):
     # F40: a referenced FOOTNOTE block that was the only member of a wrapper group (hcontainer / intro / wrapUp) leaves
     # the wrapper behind empty; the unparser has nothing to write for it. Causal test on the trees: x with its empty
     # wrappers removed and its eIds regenerated by the real generator is exactly what the round trip gives.
-    if re.search(r'^[ \t]*FOOTNOTE [^ \n]', text, re.M):
-        pruned = prune_empty_wrappers(r['xml'])
-        if pruned != r['xml']:
-            rr = eidlib.real_rewrite(pruned, prefix)
-            if 'tree' in rr and norm(rr['tree']) == norm(r2['xml']):
-                return 'F40'
+    if _only_empty_wrappers_lost(text, root, prefix):
+        return 'F40'
+    # two listed causes in one document: the text repairs applied together, then only F40 may remain
+    if changed and allr != text and _only_empty_wrappers_lost(allr, root, prefix):
+        return changed[0]
     return None
+
+
+def _only_empty_wrappers_lost(text, root, prefix):
+    if not re.search(r'^[ \t]*FOOTNOTE [^ \n]', text, re.M):
+        return False
+    r = real.convert(text, root, prefix=prefix)
+    if 'etree' not in r:
+        return False
+    pruned = prune_empty_wrappers(r['xml'])
+    if pruned == r['xml']:
+        return False
+    r2 = real.convert(unparse_real(r['etree']), root, prefix=prefix)
+    if 'xml' not in r2:
+        return False
+    rr = eidlib.real_rewrite(pruned, prefix)
+    if not ('tree' in rr and norm(rr['tree']) == norm(r2['xml'])):
+        return False
+    r3 = real.convert(unparse_real(r2['etree']), root, prefix=prefix)
+    return r3.get('xml') == r2['xml']
 
 
 WRAPPERS = {'hcontainer', 'intro', 'wrapUp'}
